@@ -528,7 +528,12 @@ class Engine:
                 interp.top_env.set("__g_" + gn, gv)
         ens = _call_ensures(c, result, args, interp.top_env)
         for nm, cond in _named(ens):
-            if nm.startswith("hint:"):
+            if nm.startswith("by-lemma:"):
+                # instance of a lemma that is proved separately (its obligations are in the census);
+                # the induction principle behind it is in the trusted base
+                path.assume(cond)
+                path.assumptions_used.add("instance of lemma " + nm[9:].split("@")[0] + " (proved separately by induction)")
+            elif nm.startswith("hint:"):
                 # intermediate lemma: proved from what is known so far, then available to the later clauses
                 path.oblige("hint", nm[5:], cond)
                 path.assume(cond)
@@ -1971,7 +1976,7 @@ class Interp:
             except TypeError:
                 raise PyRaise(ExcVal("TypeError", ("unorderable",)))
         h = getattr(a, "pyvc_compare", None) or getattr(b, "pyvc_rcompare", None)
-        if h is not None and not is_z3(a):
+        if h is not None and (not is_z3(a) or getattr(b, "pyvc_rcompare", None) is not None):
             return h(self, op, a, b)
         if isinstance(a, (tuple, list)) and isinstance(b, (tuple, list)):
             if isinstance(op, (ast.Eq, ast.NotEq)):
